@@ -601,7 +601,9 @@ func Run(tier string) int {
 		mk := func(n int, b byte) pdf.String {
 			x := make([]byte, n)
 			for i := range x {
-				x[i] = b + byte(i%7)
+				// (the phase depends on the length: two strings never share a prefix, so
+				// one decoded over the other is visible)
+				x[i] = b + byte((i+n)%7)
 			}
 			return pdf.String(x)
 		}
